@@ -13,7 +13,7 @@ CONSTANTS
   SeqBodies = {"str", "stream"}
   SeqSpells = {"canon", "title"}
   MaxReq = 2
-  DefectChoices = {{}, {"unsized205"}}
+  DefectChoices = {{}}
 INVARIANT TypeOK
 INVARIANT IConforms
 INVARIANT IFramed
